@@ -8,11 +8,81 @@ import (
 
 // AsyncEventBroker maintains a list of listeners interested in a specific type
 // of event.  Events are sent in parallel to all listeners, and no result is
-// returned.
+// returned.  Each listener receives its events one at a time, in the order they
+// were emitted: it is not called again until its previous call has returned.
+// Brokers created by NewHost additionally share their queues by listener name,
+// so a listener registered under one name with several brokers never runs for
+// two events at once either.
 type AsyncEventBroker[E any] struct {
 	sync.RWMutex
-	listenerNames []string  // Ordered listener names.
-	listenerFuncs []func(E) // Ordered listener functions.
+	listeners []*asyncListener[E] // Ordered listeners.
+	queues    *serialQueues       // Optional queues shared with other brokers.
+}
+
+// asyncListener is a registered listener function and the queue feeding it.
+type asyncListener[E any] struct {
+	name  string
+	fn    func(E)
+	queue *serialQueue
+}
+
+// serialQueues hands out one serialQueue per listener name.
+type serialQueues struct {
+	mu     sync.Mutex
+	byName map[string]*serialQueue
+}
+
+func (qs *serialQueues) get(name string) *serialQueue {
+	qs.mu.Lock()
+	defer qs.mu.Unlock()
+	if qs.byName == nil {
+		qs.byName = make(map[string]*serialQueue)
+	}
+	q := qs.byName[name]
+	if q == nil {
+		q = &serialQueue{}
+		qs.byName[name] = q
+	}
+	return q
+}
+
+// serialQueue runs queued calls sequentially, in order, from a single goroutine
+// that exists only while there is work.
+type serialQueue struct {
+	mu      sync.Mutex
+	calls   []func()
+	running bool // A goroutine is draining calls.
+}
+
+// enqueue appends the call to the queue, starting a goroutine to drain the
+// queue if none is running.
+func (q *serialQueue) enqueue(call func()) {
+	q.mu.Lock()
+	q.calls = append(q.calls, call)
+	start := !q.running
+	q.running = true
+	q.mu.Unlock()
+
+	if start {
+		go q.drain()
+	}
+}
+
+// drain runs each queued call, in order, until the queue is empty.
+func (q *serialQueue) drain() {
+	for {
+		q.mu.Lock()
+		if len(q.calls) == 0 {
+			q.running = false
+			q.mu.Unlock()
+			return
+		}
+		call := q.calls[0]
+		q.calls = q.calls[1:]
+		q.mu.Unlock()
+
+		call()
+	}
 }
 
 // Emit sends the provided event to each registered listener in parallel.
@@ -20,9 +90,10 @@ func (eb *AsyncEventBroker[E]) Emit(event *E) {
 	eb.RLock()
 	defer eb.RUnlock()
 
-	for _, l := range eb.listenerFuncs {
+	for _, l := range eb.listeners {
 		// Events are copied to minimize the risk of mutation.
-		go l(*event)
+		fn, ev := l.fn, *event
+		l.queue.enqueue(func() { fn(ev) })
 	}
 }
 
@@ -34,8 +105,11 @@ func (eb *AsyncEventBroker[E]) AddListener(name string, listener func(E)) {
 	defer eb.Unlock()
 
 	eb.lockedRemoveListener(name)
-	eb.listenerNames = append(eb.listenerNames, name)
-	eb.listenerFuncs = append(eb.listenerFuncs, listener)
+	queue := &serialQueue{}
+	if eb.queues != nil {
+		queue = eb.queues.get(name)
+	}
+	eb.listeners = append(eb.listeners, &asyncListener[E]{name: name, fn: listener, queue: queue})
 }
 
 // RemoveListener unregisters the named listener.
@@ -47,10 +121,9 @@ func (eb *AsyncEventBroker[E]) RemoveListener(name string) {
 }
 
 func (eb *AsyncEventBroker[E]) lockedRemoveListener(name string) {
-	for i, entry := range eb.listenerNames {
-		if entry == name {
-			eb.listenerNames = append(eb.listenerNames[:i], eb.listenerNames[i+1:]...)
-			eb.listenerFuncs = append(eb.listenerFuncs[:i], eb.listenerFuncs[i+1:]...)
+	for i, entry := range eb.listeners {
+		if entry.name == name {
+			eb.listeners = append(eb.listeners[:i], eb.listeners[i+1:]...)
 			break
 		}
 	}
